@@ -534,6 +534,53 @@ func c17suspend(p *Prog, r *Report) {
 			okTick = true
 		}
 	}
+	// nothing is started after the suspension check within the same heartbeat: a node that has just
+	// suspended itself must not go on to gossip / create a self-event on that tick
+	for _, c := range calls {
+		lp := innermostLoop(naturalLoops(bab), c.Block())
+		if lp == nil {
+			continue
+		}
+		starts := func(in ssa.Instruction) bool {
+			ci, ok := in.(ssa.CallInstruction)
+			if !ok {
+				return false
+			}
+			f := calleeFunc(ci.Common())
+			if f == nil {
+				return false
+			}
+			switch shortName(f) {
+			case NODE + ".Node.gossip", NODE + ".Node.monologue", NODE + ".Node.pull", NODE + ".Node.push":
+				return true
+			}
+			return f.Name() == "GoFunc"
+		}
+		after := ""
+		seenCall := false
+		for _, in := range c.Block().Instrs {
+			if in == ssa.Instruction(c) {
+				seenCall = true
+				continue
+			}
+			if seenCall && starts(in) {
+				after = p.ipos(in)
+			}
+		}
+		forwardFrom(c.Block(), func(x *ssa.BasicBlock) bool {
+			if x == lp.head || !lp.body[x] || after != "" {
+				return false
+			}
+			for _, in := range x.Instrs {
+				if starts(in) {
+					after = p.ipos(in)
+				}
+			}
+			return true
+		})
+		r.Check(after == "", rule, "babble:nothing-started-after-checkSuspend", p.ipos(c), fnName(bab), "the suspension check is the last thing a heartbeat does",
+			"within one heartbeat, gossip / a self-event is started at "+after+" AFTER checkSuspend(): on the tick on which the node suspends itself (too many undetermined events, evicted) it still syncs and creates an event while Suspended, outside the routines Suspend() waited for")
+	}
 	r.Check(okTick, rule, "babble:checkSuspend-every-tick", p.pos(bab.Pos()), fnName(bab), "suspension is checked after every heartbeat, gossiping or not", "checkSuspend is not called unconditionally inside the babbling loop")
 	// condition
 	fInit := p.Field(NODE, "Node", "initialUndeterminedEvents")
